@@ -556,6 +556,9 @@ class HostConnection(object):
 
     def _set_keyspace_for_all_conns(self, keyspace, callback):
         if self.is_shutdown or not self._connection:
+            # nothing to switch right now; a connection opened later selects self._keyspace
+            self._keyspace = keyspace
+            callback(self, [])
             return
 
         def connection_finished_setting_keyspace(conn, error):
